@@ -75,7 +75,10 @@ fn main() {
             }
         };
         let stdout = String::from_utf8_lossy(&out.stdout);
-        let line = stdout.lines().rev().find_map(|l| l.strip_prefix("C07-SHARD-RESULT "));
+        let line = stdout
+            .lines()
+            .rev()
+            .find_map(|l| l.strip_prefix("C07-SHARD-RESULT "));
         let Some(line) = line.filter(|_| out.status.success()) else {
             let err = String::from_utf8_lossy(&out.stderr);
             failed.push(format!(
@@ -122,7 +125,11 @@ fn main() {
         for v in r["violations"].as_array().into_iter().flatten() {
             let key = v["key"].as_str().unwrap_or("?").to_string();
             let n = v["count"].as_u64().unwrap_or(1);
-            rep.violation(key.clone(), v["what"].as_str().unwrap_or(""), v["replay"].clone());
+            rep.violation(
+                key.clone(),
+                v["what"].as_str().unwrap_or(""),
+                v["replay"].clone(),
+            );
             if let Some(x) = rep.violations.by_key.get_mut(&key) {
                 x.count += n - 1;
             }
@@ -140,8 +147,11 @@ fn main() {
     }
     per_shard.sort_by_key(|s| s["shard"].as_u64());
 
-    let evaluations = sums.get("struct_paths").copied().unwrap_or(0) + sums.get("enum_paths").copied().unwrap_or(0);
-    let generated = manifest["root_to_leaf_configurations"].as_u64().unwrap_or(0);
+    let evaluations = sums.get("struct_paths").copied().unwrap_or(0)
+        + sums.get("enum_paths").copied().unwrap_or(0);
+    let generated = manifest["root_to_leaf_configurations"]
+        .as_u64()
+        .unwrap_or(0);
     let exhaustive = failed.is_empty() && completed == nshards && evaluations == generated;
     rep.set("evaluations", evaluations);
     rep.set("configurations_generated", generated);
@@ -152,7 +162,10 @@ fn main() {
          field identifier, counted over every compared item of every generated configuration",
     );
     rep.set("programs", types.len() as u64);
-    rep.set("type_definitions_generated", manifest["type_definitions"].clone());
+    rep.set(
+        "type_definitions_generated",
+        manifest["type_definitions"].clone(),
+    );
     rep.set("exhaustive", exhaustive);
     rep.set("shards_completed", completed as u64);
     rep.set("shards_expected", nshards as u64);
@@ -165,10 +178,14 @@ fn main() {
     if !failed.is_empty() {
         rep.set("shard_failures", json!(failed));
     }
-    rep.assume("rename_all = \"preserve\" is 'no style of its own' (inherits like an absent attribute)");
+    rep.assume(
+        "rename_all = \"preserve\" is 'no style of its own' (inherits like an absent attribute)",
+    );
     rep.assume("tag(name = ..) follows the attribute table (inflected, container prefix applied); the prose sentence 'not affected by prefix or rename_all' is read as describing name_exact");
     rep.assume("digit word boundaries and tag / string values under an INHERITED style are not determined by the documentation: accepted alternatives are counted under 'undetermined'");
-    rep.assume("the tag item is expected first, items in declaration order, flattened children in place");
+    rep.assume(
+        "the tag item is expected first, items in declaration order, flattened children in place",
+    );
     rep.assume("attribute combinations the macro rejects at compile time, depth > 3, generics, flatten of Option<struct>, flatten_entry and timestamp fields are outside the generated space");
     if !failed.is_empty() {
         for f in &failed {
